@@ -153,3 +153,15 @@ package tlv8
 //@   ensures short: old(hasTag(r, tag)) && old(firstLen(r, tag)) < 4 ==> err != nil
 //@   ensures wide: err == nil ==> old(hasTag(r, tag)) && old(firstLen(r, tag)) >= 4
 //@   assert dec before Float32frombits#1: le32(bits) == old(sub(first(r, tag), 0, 4))
+
+// read: the parser that fills the reader's buckets. Decided here: it never panics (every list it stores under a tag is
+// non-empty, so l[0] is safe) and it returns a map or an error. Not decided: that every stored bucket is non-empty (what
+// firstOK above assumes of the readers' state - the proof needs a case analysis over aliasing in-place appends that the
+// solvers do not complete) and which items end up in which bucket (fragment merging, list delimiters).
+//@ func read(r) (res, err)
+//@   requires r != nil
+//@   modifies stream(r), heapof("int"), heapof("slice")
+//@   ensures err == nil ==> res != nil && forall(t, 0, 256, haskey(res, t) ==> len(res[t]) > 0)
+//@   loop 0
+//@     invariant ok: h != nil
+//@     invariant present: forall(t, 0, 256, haskey(h, t) ==> len(h[t]) > 0)
